@@ -45,7 +45,7 @@ def strategy(tier):
     )
 
 
-BIG_COUNTS = [63, 64, 65, 100, 127, 128, 129, 140, 192, 256, 257, 300]
+BIG_COUNTS = [15, 63, 64, 65, 100, 127, 128, 129, 140, 192, 256, 257, 300]
 
 
 def enumerate_cases(tier, shard=0, nshards=1):
@@ -79,6 +79,11 @@ def check_case(case):
             kw = dict(count=count, edge=E, ensurelink=case["ens"])
             if case["conn"] is not None:
                 kw["connectivity"] = case["conn"]
+            if case["seed"] % 2:
+                # arguments whose value is the documented default (count=15, edge=DirectedEdge, ensurelink=True) are OMITTED
+                from edgegraph.structure import DirectedEdge
+
+                kw = {k: v for k, v in kw.items() if not ((k == "count" and v == 15) or (k == "edge" and v is DirectedEdge) or (k == "ensurelink" and v is True))}
             try:
                 return randgraph.randgraph(**kw)
             except Exception as e:  # noqa
